@@ -22,7 +22,11 @@ RULE = ("random command trees (depth <= 3) mixing short-only / long-only / short
         "Fourth pass, stream help-subcommand-paths (parser harness mode / extracted parse_top): trees of depth <= 3 with visible and hidden "
         "subcommand aliases, infer_subcommands, a flag and an option per level; lines = arguments, 0..2 descents by name / alias with arguments, then "
         "`help` (or a prefix of it under inference) + 0..3 words (name, alias, proper prefix of a name / of an alias, garbage) or --help / -h; "
-        "non-trivial when the reference reading resolves the line to a level.")
+        "non-trivial when the reference reading resolves the line to a level.  Round 5, stream help-flatten: trees of depth <= 3 with "
+        "flatten_help on the root (0.9) and on inner nodes (0.5), hidden subcommands, flag subcommands, display orders, required arguments / "
+        "groups at the parents, subcommand_required / args_conflicts_with_subcommands / subcommand_negates_reqs, global arguments; usage / short / "
+        "long at the root and -h / --help / help <path> at levels reached by a parse; the usage block is compared byte for byte; non-trivial "
+        "when the usage block has at least two lines.")
 TRUSTED = [
     "Coq 8.16.1 kernel (coqc); no native_compute; theorems C12_* are 'Closed under the global context'",
     "extraction: ExtrOcamlBasic only, no Extract Constant; OCaml driver ocaml/help_driver.ml (spec reader, printing, display_width = byte length)",
@@ -32,7 +36,8 @@ TRUSTED = [
 ]
 ASSUMPTIONS = [
     "64-bit usize; plain styles; default help template; no term-size detection (term_width is set explicitly)",
-    "domain of the model: no flatten_help, override_usage / override_help, Arg::group on the argument side, subcommand visible aliases (the generators stay inside it); argument groups, requires, the subcommand usage forms, next_help_heading, subcommand_help_heading, subcommand_value_name, custom help templates (tag dispatch; the texts of name / bin / version / author / before- / after-help are not modelled), env, defaults, (short) aliases, possible values in spec_vals and global arguments are modelled",
+    "round 5: flatten_help is modelled for the default template (usage block: exact text; flattened sections: rows); Command::build's recursions take the constant fuel tree_fuel = 64 (trees of height < 62); the flatten theorems' classes: flat_tree_ok / usage_ok / flat_distinct on the BUILT clone (boolean checkers flat_tree_okb / usage_okb / flat_distinctb), names_fresh subcommands for C12_flatten_usage_heads",
+    "domain of the model: no flatten_help together with a custom help template, no override_usage / override_help, Arg::group on the argument side, subcommand visible aliases (the generators stay inside it); argument groups, requires, the subcommand usage forms, next_help_heading, subcommand_help_heading, subcommand_value_name, custom help templates (tag dispatch; the texts of name / bin / version / author / before- / after-help are not modelled), env, defaults, (short) aliases, possible values in spec_vals and global arguments are modelled",
     "refs_ok (hypothesis of C12_padding_safe, C12_render_total, C12_usage_*, C12_template_total): group ids unique, group members are arguments, every id named by a requires rule exists -- what debug_asserts.rs checks before any rendering",
     "the generators keep `hide`n arguments out of groups and out of requires targets: a hidden member of a listed group is printed by format_group (observation C12_usage_hidden_group_member_shown, replayed on the real crate)",
     "fourth pass: the wide help-chain theorems (C12_help_flag_*_wide*, C12_help_subcommand_*) quantify over the class hsplit (inside C09's wsplit/wline): every level accepts its own arguments from a fresh matcher, levels are left through name / alias / inferred prefix / long flag-subcommand tokens, ignore_errors and args_conflicts_with_subcommands off; the *_gen forms assume the user's tree is unbuilt (tree_all unb), the help flag not disabled at the level and no subcommand of it named `--help` / `-h`",
@@ -939,7 +944,8 @@ def oracle(case, impl, flat_bound=None):
                 for mk in arg_markers(a):
                     if mk in text:
                         return "hidden optional argument %s appears in the usage (%r)" % (a["id"], mk)
-                if "short" in a and "long" not in a and short_occurs(text, a["short"]):
+                # (a flattened usage block also carries the lines of other levels, where the same letter may be in use)
+                if flat_bound is None and "short" in a and "long" not in a and short_occurs(text, a["short"]):
                     return "hidden optional argument %s appears in the usage (-%s)" % (a["id"], a["short"])
         return None
     scr = split_screen(text)
@@ -967,6 +973,11 @@ def oracle(case, impl, flat_bound=None):
         if pos != len(want):
             return "usage line %r of the help at level %r does not name the path" % (usage, path)
     body = "\n".join(secs.get(t, "") for t in order)
+    if flat_bound is not None:
+        # a flattened screen: the absence tests by short letter are made on the level's OWN sections only (the flattened
+        # sections belong to other levels, where the same letter may be in use)
+        own = {"Arguments", "Options"} | set(a["heading"] for a in level["args"] if a.get("heading"))
+        body = "\n".join(secs.get(t, "") for t in order if t in own)
     # -- every visible argument is listed in its section
     for a in level["args"]:
         hidden = hidden_for_mode(a, use_long)
@@ -1733,7 +1744,7 @@ def classify_known(stream, case, impl, failure):
 
 TECHNIQUE = ("Coq proof (column arithmetic, visibility, section assembly, spec_vals non-interference of the help writer; usage line over the "
              "requirement graph with groups; tag dispatch of custom templates; help-flag and help-subcommand dispatch along subcommand chains with "
-             "arguments between the names, on the parser model) "
+             "arguments between the names, on the parser model; flatten_help: Command::build, the flattened usage block and write_flat_subcommands) "
              "+ extracted-model/implementation correspondence")
 LEVEL_TEXT = ("Machine-checked theorems (Coq 8.16, closed under the global context) about a model of help_template.rs / "
               "usage.rs that mirrors the Rust functions one by one: every unsigned subtraction and run-time format width in "
@@ -1763,12 +1774,20 @@ LEVEL_TEXT = ("Machine-checked theorems (Coq 8.16, closed under the global conte
               "an inferred prefix) returns the help of the level the path of names / aliases leads to, a word that is no exact name or alias "
               "gives InvalidSubcommand, and parse_help_subcommand's unwrap is shown dead for clap's canonicalising lookup and live for lookups "
               "that hand on the typed alias text; a hidden argument that is neither in the unrolled requirement closure nor a member of a "
-              "listed group is MENTIONED by no usage piece (own piece or inside a <a|b>), with a witness for each side of that boundary.  The "
+              "listed group is MENTIONED by no usage piece (own piece or inside a <a|b>), with a witness for each side of that boundary.  Round 5: "
+              "Command::flatten_help is modelled (Command::build with the expanded help tree and _build_bin_names_internal, the flatten branch of "
+              "write_help_usage, write_flat_subcommands): without the setting the new writer is the old one; the usage block of a flattened level is "
+              "the own line (unless subcommand_required without args_conflicts_with_subcommands) followed by exactly one line per subcommand of the "
+              "built clone that is not hidden, in order, each starting with bin name of the level + required arguments of the level + {name|--long|-s}; "
+              "under nested flattening the lines are exactly those of the nodes reached through subcommands that are not hidden (sound and complete); "
+              "the block is a function of the built clone; the flattened sections are total with bounded padding on the class flat_tree_ok, every "
+              "section belongs to a subcommand that is not hidden, every row to an argument shown in the mode and not global, and every such "
+              "subcommand / argument has its section / row (distinct names); C12_padding_safe extended to screens with flatten_help.  The "
               "model is tied to clap_builder on every run by rendering generated command trees with the real crate at widths "
               "0..200 (debug and release) and comparing sections, rows, help columns and usage tokens with the extracted model; "
               "an independent python oracle written from the property text checks the rendered text itself.")
 LEVEL_NOTE = ("Trusted: Coq kernel, extraction, OCaml driver, Rust harness, generators; core::fmt, BTreeMap, f32 comparison "
-              "(swept each run), textwrap (C20) and unicode-width are modelled or abstract; the model's domain excludes flatten_help, "
+              "(swept each run), textwrap (C20) and unicode-width are modelled or abstract; the model's domain excludes flatten_help under a custom template, "
               "usage / help overrides, subcommand aliases in help, the texts of the template tags name / bin / version / author / before- / "
               "after-help, non-ASCII names, Arg::group on the argument side.  Differential / oracle only: byte-exact layout and wrapped text, help "
               "requests on lines outside the class hsplit (levels left through -S / a short cluster, the flag read while a multi-valued positional "
@@ -1777,4 +1796,9 @@ LEVEL_NOTE = ("Trusted: Coq kernel, extraction, OCaml driver, Rust harness, gene
               "that contains the generated help argument, with the necessary side condition that no subcommand answers to `--help` / `-h`.  Observations (not defect fixes): a default value naming "
               "a hidden possible value is printed in [default: ..]; a hidden member of a listed group is printed in the usage line <a|b> (recorded "
               "finding; C12_usage_hidden_listed_member_mentioned), and a hidden argument that a required argument `requires` is printed on its own "
-              "(C12_usage_hidden_required_target_mentioned).")
+              "(C12_usage_hidden_required_target_mentioned).  Round 5: the flatten theorems are stated on the built clone (h_build c = Some b is a "
+              "hypothesis where the statement needs b; totality of build() itself and the fuel bound tree_fuel are differential: stream help-flatten "
+              "compares the usage block byte for byte on trees of depth <= 3); observations: the flattened sections are filtered by the mode of the "
+              "SCREEN (`--help` at a level without long help of its own hides a subcommand's hide_short_help argument), a global argument declared at "
+              "a flattened subcommand is listed nowhere in the parent's flattened help, and the generated help subcommand appears in one of two "
+              "shapes (C11-flatten-help-subcommand-shape).")
